@@ -135,13 +135,14 @@ def check_case(ctx, sf, spec, backend, h, plan, seed):
         tol = max(hb.METHOD_TOL.get(c["m"], TOL), 1e-12 * (kappa ** 2 if c["m"] == "purity" else kappa))
         if tol > 1e-6:
             continue
-        d = hb.answers_differ(out["answers"][i], ref["answers"][i], tol)
+        wild = c["m"] in hb.NAN_WILD
+        d = hb.answers_differ(out["answers"][i], ref["answers"][i], tol, wild)
         if not d:
             continue
         # classify: wrong on a fresh state object, or only after earlier calls
         fr = fresh_answer(sf, spec, backend, h, c, seed)
         fr2 = fresh_answer(sf, spec, backend, 2.0, c, seed)
-        if hb.answers_differ(fr, fr2, tol):
+        if hb.answers_differ(fr, fr2, tol, wild):
             sig = f"{backend}:{c['m']}"
             if backend == "gaussian" and c["m"] == "parity_expectation" and len(c["modes"]) < spec["n"]:
                 sig += ":subset-of-modes"
@@ -192,8 +193,8 @@ def utils_states_check(ctx, sf, rng):
 def oracle(ctx, sf):
     rng = ctx.rng
     plans = dict(gaussian=(8, 16), bosonic=(6, 12))
-    budget = [("gaussian", ctx.n(110, 900)), ("bosonic", ctx.n(66, 500)), ("fock-pure", ctx.n(28, 260)),
-              ("fock-mixed", ctx.n(22, 200))]
+    budget = [("gaussian", ctx.n(110, 4000)), ("bosonic", ctx.n(66, 2400)), ("fock-pure", ctx.n(28, 1000)),
+              ("fock-mixed", ctx.n(22, 800))]
     for backend, count in budget:
         for it in range(count):
             spec = hb.rand_program(rng, backend)
